@@ -2,7 +2,8 @@
 
 Spec kinds
 * {"kind": "net2d", "scale", "nodes": [[ix, iy], ...], "jitter": [[jx, jy], ...], "fracs": [[a, b], ...],
-   "header": bool, "domain": bool}
+   "header": bool, "domain": bool, "via": "direct"|"tagcols"|"polyline", "tags": [[...], ...], "polys"?: [[...], ...],
+   "max_fracs": null|k, "frac_id": bool, "tol": null|float}
   point k = ((ix_k + jx_k) * scale, (iy_k + jy_k) * scale); fracture = segment between two distinct pool points.
 * {"kind": "net3d", "polys": [poly, ...], "domain": bool, "convexity": bool} with
   poly = {"type": "ellipse", "n", "jit": [...], "a", "b", "theta", "phi", "psi", "c": [x, y, z]}   (vertices on an
@@ -28,9 +29,13 @@ from ..core import ROOT, HarnessError, require, require_equal
 ID = "C47"
 RULE = (
     "Hypothesis draws one of three round trips. net2d: 1..5 line fractures between 2..8 pool points (lattice nodes "
-    "+ float jitter, scale 1e-2/1/1e3, shared end points allowed), with/without header line, with/without Domain; "
-    "FractureNetwork2d.to_csv -> network_2d_from_csv. net3d: 1..4 planar convex polygons with 3..6 vertices (points on "
-    "an arbitrarily oriented ellipse, or axis-aligned dyadic rectangles), with/without Domain line; "
+    "+ float jitter, scale 1e-2/1/1e3, shared end points allowed), with/without header line, with/without Domain; the "
+    "network to be written is built directly from LineFractures carrying 0..3 tags each (values -1, 0, 1, 2, 7, 1000), "
+    "or imported from a check-written csv with tag columns (tagcols=...), or imported from a check-written polyline "
+    "csv (polyline=True) - both imports are compared with the generated geometry, ids and tags first; then "
+    "FractureNetwork2d.to_csv -> network_2d_from_csv with max_num_fracs (0..n), return_frac_id, tol (default, 1e-10, "
+    "1e-6) and skip_header as drawn: the first max_num_fracs fractures and ids 0..k-1 are expected. net3d: 1..4 planar convex polygons with 3..6 vertices (points on "
+    "an arbitrarily oriented ellipse, or axis-aligned dyadic rectangles), optionally with tag attributes, with/without Domain line, tol default or 1e-6; "
     "FractureNetwork3d.to_csv -> network_3d_from_csv. txt: 1..4 uniquely named columns x 1..8 rows, magnitudes 0 or "
     "1e-8..1e8, float or integer arrays, per-column format %.17e / %.8e / %5.3e / default %2.2e; export_data_to_txt -> "
     "read_data_from_txt. Oracle: the geometry / arrays the spec was built from: same number of fractures, end points "
@@ -52,14 +57,17 @@ ASSUMPTIONS = [
     "distinct fracture end points differ by >= 0.5*scale in a coordinate (scale 1e-2..1e3), far above the merge tolerance 1e-8 of the 2-d reader; no zero-length fractures, no duplicated fractures",
     "3-d fractures are planar, strictly convex polygons; vertex order is representation (PlaneFracture re-sorts), so polygons are compared up to cyclic shift and reversal",
     "2-d csv: the file is read with skip_header matching with_header; the Domain is not part of the 2-d file format (it is passed to the reader) and is part of the 3-d format only when given to to_csv",
+    "tags are not part of the csv formats written by to_csv (FID + coordinates / coordinates only): a tagged network must round-trip its geometry, nothing is demanded of the tags after the round trip",
+    "polyline files list the points of one fracture id in consecutive rows",
     "txt: 1-d arrays of equal length >= 1, names without white space that do not start with '#'; a format with p printed decimals may lose everything beyond relative 0.5*10^-p (caller's choice)",
     "txt single row: the reader returns 0-d values; only the values are compared then (shape (1,) vs () is not counted as a violation)",
 ]
 REQUIRED = {
-    "net2d": 0.2, "net3d": 0.12, "txt": 0.3,
+    "net2d": 0.2, "net3d": 0.1, "txt": 0.25, "csv-tagged": 0.08, "2d-via-direct": 0.06, "2d-via-tagcols": 0.04,
+    "2d-via-polyline": 0.015, "2d-max-num-fracs": 0.025, "2d-return-frac-id": 0.06, "3d-tagged": 0.03,
     "2d-shared-endpoint": 0.04, "2d-header": 0.06, "2d-noheader": 0.06, "2d-domain": 0.06,
     "3d-domain": 0.04, "3d-nodomain": 0.04, "3d-ellipse": 0.06, "3d-rect": 0.04,
-    "txt-multi-column": 0.2, "txt-single-row": 0.03, "txt-exact-format": 0.1, "txt-default-format": 0.1,
+    "txt-multi-column": 0.15, "txt-single-row": 0.03, "txt-exact-format": 0.1, "txt-default-format": 0.1,
 }
 
 FINDING_SINGLE_COLUMN = "C47-read-txt-single-column"
@@ -79,16 +87,46 @@ _val = st.one_of(st.just(0.0), st.integers(-1000, 1000).map(float), _mag,
                  st.floats(-1e3, 1e3, allow_nan=False, allow_subnormal=False))
 
 
+_tag = st.sampled_from([-1, -1, 0, 1, 2, 7, 1000])
+
+
 @st.composite
 def _net2d(draw):
     nodes = draw(st.lists(st.tuples(st.integers(-10, 10), st.integers(-10, 10)), unique=True, min_size=2, max_size=8))
     k = len(nodes)
     jitter = [[draw(_jit), draw(_jit)] for _ in range(k)]
-    pairs = draw(st.lists(st.tuples(st.integers(0, k - 1), st.integers(0, k - 1)).filter(lambda t: t[0] != t[1]),
-                          unique_by=lambda t: (min(t), max(t)), min_size=1, max_size=min(5, k * (k - 1) // 2)))
-    return {"kind": "net2d", "scale": draw(st.sampled_from([0.01, 1.0, 1000.0])), "nodes": [list(n) for n in nodes],
-            "jitter": jitter, "fracs": [list(p) for p in pairs], "header": draw(st.booleans()),
-            "domain": draw(st.booleans())}
+    via = draw(st.sampled_from(["direct", "direct", "direct", "tagcols", "tagcols", "polyline"]))
+    spec = {"kind": "net2d", "scale": draw(st.sampled_from([0.01, 1.0, 1000.0])), "nodes": [list(n) for n in nodes],
+            "jitter": jitter, "header": draw(st.booleans()), "domain": draw(st.booleans()), "via": via}
+    if via == "polyline":
+        # polylines through 2..4 distinct pool points; a polyline that would repeat an existing segment is dropped
+        polys, seen = [], set()
+        for _ in range(draw(st.integers(1, 3))):
+            idx = draw(st.lists(st.integers(0, k - 1), unique=True, min_size=2, max_size=min(4, k)))
+            segs = [(min(a, b), max(a, b)) for a, b in zip(idx[:-1], idx[1:])]
+            if polys and (seen & set(segs)):
+                continue
+            seen.update(segs)
+            polys.append(idx)
+        spec["polys"] = polys
+        spec["fracs"] = [[a, b] for pl in polys for a, b in zip(pl[:-1], pl[1:])]
+        spec["tags"] = [[] for _ in spec["fracs"]]
+    else:
+        pairs = draw(st.lists(st.tuples(st.integers(0, k - 1), st.integers(0, k - 1)).filter(lambda t: t[0] != t[1]),
+                              unique_by=lambda t: (min(t), max(t)), min_size=1, max_size=min(5, k * (k - 1) // 2)))
+        spec["fracs"] = [list(p) for p in pairs]
+        tagged = via == "tagcols" or draw(st.booleans())
+        ntag = draw(st.integers(1, 3)) if tagged else 0
+        if via == "tagcols":
+            # a csv file has the same number of tag columns in every row
+            spec["tags"] = [[draw(_tag) for _ in range(ntag)] for _ in pairs]
+        else:
+            spec["tags"] = [[draw(_tag) for _ in range(draw(st.integers(0, ntag)))] for _ in pairs]
+    n = len(spec["fracs"])
+    spec["max_fracs"] = draw(st.one_of(st.none(), st.none(), st.integers(0, n)))
+    spec["frac_id"] = draw(st.booleans())
+    spec["tol"] = draw(st.sampled_from([None, None, 1e-10, 1e-6]))
+    return spec
 
 
 @st.composite
@@ -109,7 +147,10 @@ def _poly(draw):
 def _net3d(draw):
     convexity = draw(st.integers(0, 24)) == 0
     polys = draw(st.lists(_poly(), min_size=1, max_size=2 if convexity else 4))
-    return {"kind": "net3d", "polys": polys, "domain": draw(st.booleans()), "convexity": convexity}
+    tagged = draw(st.booleans())
+    tags = [[draw(_tag) for _ in range(draw(st.integers(0, 3)))] if tagged else [] for _ in polys]
+    return {"kind": "net3d", "polys": polys, "domain": draw(st.booleans()), "convexity": convexity, "tags": tags,
+            "tol": draw(st.sampled_from([None, None, 1e-6]))}
 
 
 @st.composite
@@ -129,7 +170,7 @@ def _txt(draw):
 
 
 def strategy(tier):
-    return st.one_of(_net2d(), _net3d(), _txt(), _txt())
+    return st.one_of(_net2d(), _net2d(), _net3d(), _txt(), _txt())
 
 
 # ----------------------------------------------------------------------------- known finding
@@ -236,52 +277,106 @@ def check(s):
     raise HarnessError(f"unknown kind {kind}")
 
 
+def _segset(p, q):
+    return frozenset([(float(p[0]), float(p[1])), (float(q[0]), float(q[1]))])
+
+
+def _compare_net2d(back, exp, tag, what):
+    from porepy.fracs.fracture_network_2d import FractureNetwork2d
+
+    require(isinstance(back, FractureNetwork2d), f"{tag}-type", f"{type(back)}")
+    require(back.num_frac() == len(exp) and len(back.fractures) == len(exp), f"{tag}-count",
+            f"{what}: {len(exp)} fractures expected, {back.num_frac()} / {len(back.fractures)} read")
+    got = []
+    for fr in back.fractures:
+        require(fr.pts.shape == (2, 2), f"{tag}-frac-shape", f"{fr.pts.shape}")
+        got.append(_segset(fr.pts[:, 0], fr.pts[:, 1]))
+    require(_match_multiset(exp, got, lambda a, b: a == b), f"{tag}-fractures",
+            lambda: f"{what}: fractures differ: expected {sorted(map(sorted, exp))}, read {sorted(map(sorted, got))}")
+    # the private point / edge representation must describe the same segments
+    got2 = [_segset(back._pts[:, e[0]], back._pts[:, e[1]]) for e in back._edges.T]
+    require(_match_multiset(exp, got2, lambda a, b: a == b), f"{tag}-pts-edges",
+            f"{what}: points / edges of the read network do not describe the expected fractures")
+
+
 def _check_net2d(s, d):
     import porepy as pp
     from porepy.fracs import fracture_importer
-    from porepy.fracs.fracture_network_2d import FractureNetwork2d
 
     pts = _points2d(s)
     segs = [(pts[a], pts[b]) for a, b in s["fracs"]]
-    fracs = [pp.LineFracture(np.array([[p[0], q[0]], [p[1], q[1]]], dtype=float)) for p, q in segs]
+    exp_all = [_segset(p, q) for p, q in segs]
+    tags = s.get("tags") or [[] for _ in segs]
+    via = s.get("via", "direct")
     dom = None
     if s["domain"]:
         m = 11.0 * s["scale"]
         dom = pp.Domain({"xmin": -m, "xmax": m, "ymin": -m, "ymax": 1.5 * m})
-    net = pp.create_fracture_network(fracs, dom)
-    f = d / "net2d.csv"
-    try:
-        net.to_csv(f, with_header=s["header"])
-        kw = {} if s["header"] else {"skip_header": 0}
-        back = fracture_importer.network_2d_from_csv(f, domain=dom, **kw)
-    finally:
-        f.unlink(missing_ok=True)
-
-    labels = ["net2d", "2d-header" if s["header"] else "2d-noheader"]
+    labels = ["net2d", "2d-header" if s["header"] else "2d-noheader", f"2d-via-{via}"]
+    if any(len(t) for t in tags):
+        labels.append("csv-tagged")
     used = [i for pr in s["fracs"] for i in pr]
     if len(set(used)) < len(used):
         labels.append("2d-shared-endpoint")
     if s["domain"]:
         labels.append("2d-domain")
 
-    require(isinstance(back, FractureNetwork2d), "2d-type", f"{type(back)}")
-    require(back.num_frac() == len(segs) and len(back.fractures) == len(segs), "2d-count",
-            f"{len(segs)} fractures written, {back.num_frac()} / {len(back.fractures)} read")
-    got = []
-    for fr in back.fractures:
-        require(fr.pts.shape == (2, 2), "2d-frac-shape", f"{fr.pts.shape}")
-        got.append(frozenset([(float(fr.pts[0, 0]), float(fr.pts[1, 0])), (float(fr.pts[0, 1]), float(fr.pts[1, 1]))]))
-    exp = [frozenset([(float(p[0]), float(p[1])), (float(q[0]), float(q[1]))]) for p, q in segs]
-    require(_match_multiset(exp, got, lambda a, b: a == b), "2d-fractures",
-            lambda: f"fractures differ after csv round trip: written {sorted(map(sorted, exp))}, read {sorted(map(sorted, got))}")
-    # the private point / edge representation must describe the same segments
-    got2 = []
-    for e in back._edges.T:
-        got2.append(frozenset([(float(back._pts[0, e[0]]), float(back._pts[1, e[0]])),
-                               (float(back._pts[0, e[1]]), float(back._pts[1, e[1]]))]))
-    require(_match_multiset(exp, got2, lambda a, b: a == b), "2d-pts-edges",
-            "points / edges of the read network do not describe the written fractures")
-    if dom is not None:
+    f0, f = d / "net2d-source.csv", d / "net2d.csv"
+    try:
+        # ---- the network that is going to be written
+        if via == "direct":
+            fracs = [pp.LineFracture(np.array([[p[0], q[0]], [p[1], q[1]]], dtype=float), tags=(t if t else None))
+                     for (p, q), t in zip(segs, tags)]
+            net = pp.create_fracture_network(fracs, dom)
+        elif via == "tagcols":
+            # a csv with tag columns (written by the check), imported with tagcols=...
+            ntag = len(tags[0])
+            with open(f0, "w") as fh:
+                fh.write("# FID,START_X,START_Y,END_X,END_Y" + "".join(f",TAG{i}" for i in range(ntag)) + "\n")
+                for i, ((p, q), t) in enumerate(zip(segs, tags)):
+                    fh.write(",".join([str(10 + i)] + [repr(float(v)) for v in (p[0], p[1], q[0], q[1])]
+                                      + [str(int(v)) for v in t]) + "\n")
+            net, ids0 = fracture_importer.network_2d_from_csv(f0, tagcols=list(range(5, 5 + ntag)), domain=dom,
+                                                              return_frac_id=True)
+            _compare_net2d(net, exp_all, "2d-tagcols-import", "import with tagcols")
+            require_equal(np.asarray(ids0), np.arange(10, 10 + len(segs)), "2d-tagcols-ids", "fracture ids of the import")
+            if ntag:
+                require_equal(net._edges[2:2 + ntag].T, np.array(tags, dtype=int).reshape(len(segs), ntag),
+                              "2d-tagcols-tags", "tag columns of the imported network")
+        else:
+            # polyline format: FID, X, Y per row
+            with open(f0, "w") as fh:
+                fh.write("# FID,PT_X,PT_Y\n")
+                for i, pl in enumerate(s["polys"]):
+                    for a in pl:
+                        fh.write(f"{3 + 2 * i},{float(pts[a][0])!r},{float(pts[a][1])!r}\n")
+            net, ids0 = fracture_importer.network_2d_from_csv(f0, polyline=True, domain=dom, return_frac_id=True)
+            _compare_net2d(net, exp_all, "2d-polyline-import", "import with polyline=True")
+            exp_ids = [3 + 2 * i for i, pl in enumerate(s["polys"]) for _ in range(len(pl) - 1)]
+            require_equal(np.asarray(ids0), np.array(exp_ids), "2d-polyline-ids", "fracture ids of the polyline import")
+
+        # ---- write with to_csv, read back with the documented options
+        net.to_csv(f, with_header=s["header"])
+        kw = {} if s["header"] else {"skip_header": 0}
+        if s.get("max_fracs") is not None:
+            kw["max_num_fracs"] = s["max_fracs"]
+            labels.append("2d-max-num-fracs")
+        if s.get("tol") is not None:
+            kw["tol"] = s["tol"]
+        if s.get("frac_id"):
+            labels.append("2d-return-frac-id")
+            back, ids = fracture_importer.network_2d_from_csv(f, domain=dom, return_frac_id=True, **kw)
+        else:
+            back, ids = fracture_importer.network_2d_from_csv(f, domain=dom, **kw), None
+    finally:
+        f.unlink(missing_ok=True)
+        f0.unlink(missing_ok=True)
+
+    nkeep = len(segs) if s.get("max_fracs") is None else min(s["max_fracs"], len(segs))
+    _compare_net2d(back, exp_all[:nkeep], "2d", "csv round trip")
+    if ids is not None:
+        require_equal(np.asarray(ids), np.arange(nkeep), "2d-frac-ids", "fracture ids returned by the reader")
+    if dom is not None and nkeep > 0:
         require(back.domain is not None and dict(back.domain.bounding_box) == dict(dom.bounding_box), "2d-domain",
                 "domain passed to the reader not kept")
     return {"labels": labels, "nontrivial": len(segs) >= 2}
@@ -294,6 +389,10 @@ def _check_net3d(s, d):
 
     verts = [_poly_vertices(p) for p in s["polys"]]
     fracs = [pp.PlaneFracture(v.copy()) for v in verts]
+    tags3 = s.get("tags") or [[] for _ in verts]
+    for fr, t in zip(fracs, tags3):
+        if t:
+            fr.tags = np.asarray(t, dtype=np.int32)  # the documented tag attribute of a fracture
     net = pp.create_fracture_network(fracs)
     dom = None
     if s["domain"]:
@@ -302,11 +401,15 @@ def _check_net3d(s, d):
     try:
         net.to_csv(f, domain=dom)
         kw = {} if s["convexity"] else {"check_convexity": False}
+        if s.get("tol") is not None:
+            kw["tol"] = s["tol"]
         back = fracture_importer.network_3d_from_csv(f, has_domain=dom is not None, **kw)
     finally:
         f.unlink(missing_ok=True)
 
     labels = ["net3d", "3d-domain" if s["domain"] else "3d-nodomain"]
+    if any(len(t) for t in tags3):
+        labels += ["3d-tagged", "csv-tagged"]
     labels += sorted({"3d-" + p["type"] for p in s["polys"]})
     if s["convexity"]:
         labels.append("3d-convexity-check")
